@@ -1497,7 +1497,7 @@ class Engine:
             if spec is None:
                 raise Unsupported('for over symbolic collection without loop contract (%s #%s)' % (qual, k))
             return it.cut(self, node, env, spec, qual, k)
-        items = M.concrete_iter(self, it)
+        items = it._pyvc_iter(self) if hasattr(it, '_pyvc_iter') else M.concrete_iter(self, it)
         for v in items:
             self.assign(node.target, v, env)
             try:
